@@ -178,7 +178,7 @@ pub fn subs() -> Vec<Sub> {
 }
 
 pub fn run(env: &mut Env) -> RunResult {
-    let n = env.tier.sel(8_000, 60_000);
+    let n = env.tier.sel(40_000, 300_000);
     env.run_tapes(SUB_V3, n, 400)?;
     env.run_tapes(SUB_V5, n, 700)?;
     for s in ["c08.sequence.v3", "c08.sequence.v5"] {
